@@ -42,6 +42,13 @@ PROPS: dict[str, dict] = {
                         "PartialJoin cells: the join is resolved and no column is exposed by both operands without being joined on (provenance of such columns is left open by the property)"],
         "explanation": "commute of every operation class x every node-capable existing operation class (split into cells), all targets: X is a free row sequence",
     },
+    "C03": {
+        "modules": ["apply"],
+        "assumptions": ["laws of tiers L/T1/T2/T3 (spec/laws.py): assumed, bounded-checked natively, not yet Lean-proved",
+                        "joins: no column is exposed by both operands without being joined on (the property leaves the provenance of such columns open)",
+                        "Engine.append_unary / transfer / conform of lsst.daf.relation.sql are assumed to satisfy the generic engine contracts here (they are the subject of C02/C17)"],
+        "explanation": "UnaryOperation.apply, every _begin_apply/_finish_apply, Engine.backtrack_unary (base + iteration), MarkerRelation.reapply, Transfer.simplify, commute (shared with C04)",
+    },
     "C05": {
         "modules": ["op_slice"],
         "assumptions": [],
